@@ -103,6 +103,9 @@ func (sig *PreSignature) Validate() error {
 	if len(sig.RBar.Points) != len(sig.S.Points) {
 		return errors.New("presignature: different number of R,S shares")
 	}
+	if len(sig.RBar.Points) == 0 {
+		return errors.New("presignature: no signers")
+	}
 
 	for id, R := range sig.RBar.Points {
 		if S, ok := sig.S.Points[id]; !ok || S.IsIdentity() {
